@@ -631,7 +631,7 @@ func checkC07(c *Ctx) {
 		allowed    map[string]bool
 	}
 	rules := []fieldRule{
-		{"instruction", "blockIdx", map[string]bool{"setIndex": true, "newInstruction": true}},
+		{"instruction", "blockIdx", map[string]bool{"setIndex": true, "newInstruction": true, "newBlock": true}}, // newBlock numbers the instructions of the block it builds (today through setIndex)
 		{"instruction", "currAddr", map[string]bool{"setAddr": true, "newInstruction": true}},
 		{"block", "idx", map[string]bool{"setIndex": true, "newBlock": true}},
 		{"block", "seq", map[string]bool{"newBlock": true}},
